@@ -150,6 +150,30 @@ func wsHandler(req *http.Request, resp *http.Response) {
 	}
 }
 
+// wsPushHandler: the server speaks first - three messages pushed by a second goroutine while
+// the handler's own goroutine already waits in ReadData - and then echoes like wsHandler.
+func wsPushHandler(req *http.Request, resp *http.Response) {
+	c, err := websocket.Upgrade(req, resp)
+	if err != nil {
+		return
+	}
+	go func() {
+		for i := 0; i < 3; i++ {
+			time.Sleep(20 * time.Millisecond)
+			c.SendData([]byte(fmt.Sprintf("push-%d", i)))
+		}
+	}()
+	for {
+		d, err := c.ReadData()
+		if err != nil {
+			return
+		}
+		if err := c.SendData(d); err != nil {
+			return
+		}
+	}
+}
+
 var paths = []string{"/", "/a", "/index.html", "/api/v1/items", "/x-y_z.0"}
 
 // ---- one HTTP exchange ------------------------------------------------------------------
@@ -589,7 +613,11 @@ func wsMasked(w *world, k int) {
 		<-ch
 		time.Sleep(10 * time.Millisecond)
 		key := base64.StdEncoding.EncodeToString(r.Bytes(16))
-		req := "GET /ws HTTP/1.1\r\nHost: 10.0.0.1:8080\r\nUpgrade: websocket\r\nConnection: Upgrade\r\nSec-WebSocket-Key: " + key + "\r\nSec-WebSocket-Version: 13\r\n\r\n"
+		path := "/ws"
+		if k%12 == 11 {
+			path = "/wspush"
+		}
+		req := "GET " + path + " HTTP/1.1\r\nHost: 10.0.0.1:8080\r\nUpgrade: websocket\r\nConnection: Upgrade\r\nSec-WebSocket-Key: " + key + "\r\nSec-WebSocket-Version: 13\r\n\r\n"
 		if !writeAll([]byte(req)) {
 			failure = "cannot send the upgrade request"
 			return
@@ -607,6 +635,22 @@ func wsMasked(w *world, k int) {
 		if !strings.HasPrefix(head, "HTTP/1.1 101") || headerOf(head, "Sec-WebSocket-Accept") != accept(key) {
 			failure = fmt.Sprintf("upgrade response %q: accept key should be %q", head, accept(key))
 			return
+		}
+		if path == "/wspush" {
+			// the server speaks first, while this client is silent
+			for i := 0; i < 3; i++ {
+				want := []byte(fmt.Sprintf("push-%d", i))
+				if !readN(2+len(want), &in) {
+					failure = fmt.Sprintf("message #%d pushed by the server (its reader is waiting for this silent client at the same time) did not arrive", i)
+					return
+				}
+				if in[0] != 0x81 || int(in[1]) != len(want) || !bytes.Equal(in[2:2+len(want)], want) {
+					failure = fmt.Sprintf("pushed message #%d arrived as %x, expected an unmasked text frame %q", i, in[:2+len(want)], want)
+					return
+				}
+				in = in[2+len(want):]
+				run.Count("ws_server_pushes_verified", 1)
+			}
 		}
 		for i, n := range lens {
 			m := msg(k, i, n)
@@ -709,6 +753,7 @@ func child(t *testing.T) {
 			srv.HandleFunc(p, handler)
 		}
 		srv.HandleFunc("/ws", wsHandler)
+		srv.HandleFunc("/wspush", wsPushHandler)
 		go srv.ListenAndServ()
 		time.Sleep(50 * time.Millisecond)
 		for k := lo; k < hi && run.Violations() < 4; k++ {
